@@ -600,6 +600,9 @@ func (c *VirtualTable) Update(ctx context.Context, key interface{}, values map[i
 	if !ok || old.Deleted {
 		return nil
 	}
+	// An UPDATE does not decide whether the row exists: it keeps the time
+	// of the INSERT it applies to, so that a DELETE merged later still wins.
+	new.DeleteUpdateOffset = durationpb.New(ot.Add(old.DeleteUpdateOffset.AsDuration()).Sub(t))
 	new.ColumnValues = make(map[string]*v1proto.ColumnValue)
 	for i, v := range values {
 		if i == c.KeyCol {
